@@ -226,6 +226,11 @@ pub fn format_family(max_n: usize, stride: usize) -> Vec<(Facts, String)> {
 /// sets range over all subsets of {118, 5, earlier free terms} (the empty set = disconnected term),
 /// with eight obsolete / replacement patterns (incl. a replacement chain and a mutual replacement) and a record pattern derived from the shape index.
 pub fn family_e(k_min: usize, k_max: usize, free_ids: &[u32]) -> Vec<(Facts, String)> {
+    family_e_opt(k_min, k_max, free_ids, false)
+}
+
+/// `dangling`: additionally a pattern whose replacement names a term that is absent from the ontology
+pub fn family_e_opt(k_min: usize, k_max: usize, free_ids: &[u32], dangling: bool) -> Vec<(Facts, String)> {
     let mut out = vec![];
     for k in k_min..=k_max {
         // parent choices of free term i: subsets of [118, 5, free_0..free_{i-1}]
@@ -255,7 +260,10 @@ pub fn family_e(k_min: usize, k_max: usize, free_ids: &[u32]) -> Vec<(Facts, Str
                     }
                 }
             }
-            for flags in 0..8u32 {
+            for flags in 0..9u32 {
+                if flags == 8 && !dangling {
+                    continue;
+                }
                 if k == 0 && flags > 0 {
                     continue;
                 }
@@ -302,6 +310,12 @@ pub fn family_e(k_min: usize, k_max: usize, free_ids: &[u32]) -> Vec<(Facts, Str
                         f.terms[last - 1].obsolete = true;
                         f.terms[last - 1].replacement = Some(f.terms[first].id);
                         "replacement chain last -> previous -> first"
+                    }
+                    8 => {
+                        f.terms[last].obsolete = true;
+                        f.terms[last].replacement = Some(9_999_998);
+                        f.terms[first].replacement = Some(4242);
+                        "replacements naming terms that are absent from the ontology"
                     }
                     _ => {
                         // mutual replacement
@@ -415,6 +429,21 @@ pub fn large_family() -> Vec<(Facts, String)> {
                 }
             }
             out.push(mk(&edges, n, reversed, format!("total order on {n} terms (every term is_a all earlier ones){tag}")));
+        }
+        // a trunk of 33 terms that forks: a, b below the trunk end, c below b, d below a and b, e below c.
+        // d and e then have more than 30 ancestors each, some shared and some private, with private ids below
+        // and above shared ones (both id directions)
+        {
+            let t = 33usize;
+            let mut edges: Vec<(usize, usize)> = (1..=t).map(|k| (k, k - 1)).collect();
+            let (a, b, c, d, e) = (t + 1, t + 2, t + 3, t + 4, t + 5);
+            edges.extend([(a, t), (b, t), (c, b), (d, a), (d, b), (e, c)]);
+            out.push(mk(&edges, e + 1, reversed, format!("trunk of {t} terms with a fork (terms with > 30 partly shared ancestors){tag}")));
+            // the same with the fork terms numbered so that private ancestors sit between shared ones
+            let mut edges2: Vec<(usize, usize)> = (1..=t).map(|k| (k, k - 1)).collect();
+            let (b2, a2, c2, e2, d2) = (t + 1, t + 2, t + 3, t + 4, t + 5);
+            edges2.extend([(a2, t), (b2, t), (c2, b2), (d2, a2), (d2, b2), (e2, c2)]);
+            out.push(mk(&edges2, d2 + 1, reversed, format!("trunk of {t} terms with a fork, fork terms numbered b<a<c<e<d{tag}")));
         }
         // two long chains joined at the bottom (33 and 35 ancestors through two parents)
         {
